@@ -53,11 +53,55 @@ theorem drained_all_applied (c : Cfg) (hc : c.legacy = false) (s : St) (hr : Rea
     split at heq <;> simp_all <;> omega
   rw [ha, hd, ← hlen, List.take_length]
 
+/-- `PendingCount()` is not atomic: it reads the apply stage's processed count (`pa`, under the
+    stage's mutex) and afterwards the sequence counter (`pb`). `wait_for_drain_sound`: whenever
+    such a call reports 0 — which is when `WaitForDrain` returns nil — the run went through a state
+    `s0` (the moment of the first read) in which every block accepted so far had left the apply
+    stage, and from `s0` on — in particular after the call returns, and in every continuation —
+    ApplyFunc is only called for blocks accepted after `s0`. Blocks submitted before the wait
+    began were accepted before `s0`. -/
+theorem wait_for_drain_sound (c : Cfg) (hc : c.legacy = false) (s s' : St) (hr : Reachable c s)
+    (hret : step c s (.pb 0) = some s') :
+    ∃ s0 es0, Reachable c s0 ∧ run c s0 es0 = some s ∧ processed s0 = s0.counter ∧
+      ∀ es s'', run c s es = some s'' →
+        ∃ rest, s''.applied = s0.applied ++ rest ∧ ∀ q ∈ rest, s0.counter ≤ q := by
+  -- the call that returns 0 had read a count of 0
+  have h0 : (0 : Nat) ∈ s.reads := by
+    simp only [step] at hret
+    split at hret
+    · rename_i p hp
+      have := List.find?_some hp
+      have hm := List.mem_of_find?_eq_some hp
+      simp at this
+      subst this
+      exact hm
+    · simp at hret
+  obtain ⟨s0, es0, hr0, hp0, hrun0⟩ := reads_origin c s hr 0 h0
+  obtain ⟨hproc, hfut⟩ := drain_sound c hc s0 hr0 hp0
+  refine ⟨s0, es0, hr0, hrun0, hproc, ?_⟩
+  intro es s'' hrun
+  exact hfut (es0 ++ es) s'' (run_trans c es0 es s0 s s'' hrun0 hrun)
+
+/-- the reported count is never below the true one at the moment of the first read -/
+theorem pending_count_never_under_reports (c : Cfg) (s s' : St) (n : Nat) (hr : Reachable c s)
+    (hret : step c s (.pb n) = some s') :
+    ∃ s0 es0, Reachable c s0 ∧ run c s0 es0 = some s ∧ pendingCount s0 ≤ n := by
+  have h0 : ∃ p ∈ s.reads, p ≤ n := by
+    simp only [step] at hret
+    split at hret
+    · rename_i p hp
+      have := List.find?_some hp
+      exact ⟨p, List.mem_of_find?_eq_some hp, by simpa using this⟩
+    · simp at hret
+  obtain ⟨p, hp, hle⟩ := h0
+  obtain ⟨s0, es0, hr0, hp0, hrun0⟩ := reads_origin c s hr p hp
+  exact ⟨s0, es0, hr0, hrun0, by omega⟩
+
 /-- `PendingCount` as it was before the repair (channel lengths + pending map + inFlight) does
     not count a block held by a decode worker: after `sub, dt` the old count is 0 — WaitForDrain
     would return — and the continuation `dp, at, aq, ap` applies the block afterwards. -/
 theorem legacy_pending_count_misses_worker :
-    (run ⟨false, false⟩ init [.sub ⟨0, true, true⟩, .dt ⟨0, true, true⟩]).map
+    (run ⟨false, false⟩ init [.start, .sub ⟨0, true, true⟩, .dt ⟨0, true, true⟩]).map
       (fun s => (pendingCountLegacy s, pendingCount s, s.decW.map Item.seq, s.applied,
         (run ⟨false, false⟩ s [.dp ⟨0, true, true⟩, .at_ ⟨0, true, true⟩, .aq ⟨0, true, true⟩,
           .ap ⟨0, true, true⟩]).map (·.applied)))
@@ -66,13 +110,22 @@ theorem legacy_pending_count_misses_worker :
 /-- the same for a block in the apply runner's hand (received, `ProcessWithStatus` not yet entered) -/
 theorem legacy_pending_count_misses_runner_hand :
     (run ⟨false, false⟩ init
-      [.sub ⟨0, true, true⟩, .dt ⟨0, true, true⟩, .dp ⟨0, true, true⟩, .at_ ⟨0, true, true⟩]).map
+      [.start, .sub ⟨0, true, true⟩, .dt ⟨0, true, true⟩, .dp ⟨0, true, true⟩, .at_ ⟨0, true, true⟩]).map
       (fun s => (pendingCountLegacy s, pendingCount s)) = some (0, 1) := by decide
+
+/-- Non-vacuity of `wait_for_drain_sound`: a block is submitted between the two reads of a
+    PendingCount call that started on an empty pipeline: the call reports 1 (over-count), a second
+    call after the block was skipped reports 0. -/
+example :
+    (run ⟨false, false⟩ init
+      [.start, .pa 0, .sub ⟨0, false, false⟩, .pb 1, .dt ⟨0, false, false⟩, .dp ⟨0, false, false⟩,
+       .at_ ⟨0, false, false⟩, .aq ⟨0, false, false⟩, .pa 0, .ad ⟨0, false, false⟩, .pb 1, .pa 1, .pb 0]).map
+      (fun s => (s.reads, pendingCount s)) = some ([], 0) := by decide
 
 /-- Non-vacuity of `drain_sound`: a reachable state with two accepted blocks and count 0. -/
 example :
     (run ⟨false, false⟩ init
-      [.sub ⟨0, true, true⟩, .sub ⟨1, false, false⟩, .dt ⟨0, true, true⟩, .dp ⟨0, true, true⟩,
+      [.start, .sub ⟨0, true, true⟩, .sub ⟨1, false, false⟩, .dt ⟨0, true, true⟩, .dp ⟨0, true, true⟩,
        .at_ ⟨0, true, true⟩, .aq ⟨0, true, true⟩, .ap ⟨0, true, true⟩, .ad ⟨0, true, true⟩,
        .rs ⟨0, true, true⟩, .dt ⟨1, false, false⟩, .dp ⟨1, false, false⟩, .at_ ⟨1, false, false⟩,
        .aq ⟨1, false, false⟩, .ad ⟨1, false, false⟩]).map
